@@ -82,12 +82,12 @@ class Explorer:
         if e is not None:
             self.st.pc.append(e)
 
-    def _quick(self, extra):
+    def _quick(self, extra, timeout_ms=None):
         """one bounded query on a fresh solver (an incremental solver that has timed out once can
         hang in push/pop with recursive functions over sequences: observed, so never reused)"""
         self.feas_queries += 1
         s = z3.SimpleSolver() if os.environ.get('VERIF_QUICK_SIMPLE', '1') == '1' else z3.Solver()
-        s.set('timeout', FEAS_TIMEOUT_MS)
+        s.set('timeout', timeout_ms or FEAS_TIMEOUT_MS)
         # quantified / lambda facts are left out of the quick queries (z3 does not honour its timeout
         # inside model-based quantifier instantiation): dropping hypotheses only makes the quick
         # answers more conservative (more paths kept, fewer shortcuts taken)
@@ -141,6 +141,12 @@ class Explorer:
             feas_l = [i for i in live if self.feasible(simp[i])]
             if not feas_l:
                 raise Infeasible()
+            if len(feas_l) > 1:
+                # a quick query that timed out (machine under load) counts as feasible: before giving up on the
+                # no-fork section ask again, patiently
+                feas_l = [i for i in feas_l if self._quick([simp[i]], timeout_ms=8000) != z3.unsat]
+                if not feas_l:
+                    raise Infeasible()
             if len(feas_l) > 1:
                 raise NeedFork()
             self.assume(orig[feas_l[0]])
